@@ -314,6 +314,21 @@ def check(c):
         got = np.asarray(call(f, np.array(X), np.array(Z), pair=True, axis=1, **kw)).tolist()
         want = [o_dist(a, b, name, p) for a, b in zip(X, Z)]
         add('rows-axis1', np.shape(got) == np.shape(want) and veq(got, want, 1e-9, 1e-11), '(c) %r vs %r' % (got, want))
+        if name != 'hamming':
+            # coordinates of very different magnitude: point i differs from every point of Y by (i+1)e200 in ONE coordinate and
+            # by O(10) in the others, so every p-norm equals that dominant difference to machine precision -- whether or not
+            # |x - x'|**p overflows on the way (one distance per pair of points, along the requested axis)
+            XH = [list(r_) for r_ in X]
+            for i_, r_ in enumerate(XH):
+                r_[i_ % len(r_)] = (i_ + 1) * 1e200
+            wanth = [[(i_ + 1) * 1e200 for _ in Y] for i_ in range(len(XH))]
+            got = np.asarray(call(f, np.array(XH), np.array(Y), axis=0, **kw)).tolist()
+            add('matrix-axis0-huge-coordinates', np.shape(got) == np.shape(wanth) and all(feq(g, v, 1e-9, 0.0) for gr, wr in zip(got, wanth)
+                                                                                       for g, v in zip(gr, wr)), '(b2) %r vs %r' % (got, wanth))
+            got = np.asarray(call(f, np.array(XH), np.array(Z), pair=True, axis=1, **kw)).tolist()
+            wanth = [(i_ + 1) * 1e200 for i_ in range(len(XH))]
+            add('rows-axis1-huge-coordinates', np.shape(got) == np.shape(wanth) and all(feq(g, v, 1e-9, 0.0) for g, v in zip(got, wanth)),
+                '(c2) %r vs %r' % (got, wanth))
         # a single point against a set of points (either order): the point counts as a set of one
         for tagd, A, B, wantd in (('point-vs-set-axis0', np.array(X[0]), np.array(Y), [[o_dist(X[0], b, name, p) for b in Y]]),
                                   ('set-vs-point-axis0', np.array(X), np.array(Y[0]), [[o_dist(a, Y[0], name, p)] for a in X])):
